@@ -16,6 +16,7 @@ package c09
 import (
 	"bufio"
 	"bytes"
+	"errors"
 	"fmt"
 	"io"
 	"math/rand"
@@ -42,7 +43,18 @@ type fragReader struct {
 	rnd      *rand.Rand
 	eofReads int // Read calls made after everything was handed out
 	onStarve func()
+	endMode  int // what an exhausted reader answers: 0 EOF, 1 connection reset, 2 timeout, 3 panic (attempt abandoned)
 }
+
+type abandonSentinel struct{}
+
+var errConnReset = errors.New("read: connection reset by peer")
+
+type timeoutErr struct{}
+
+func (timeoutErr) Error() string   { return "i/o timeout" }
+func (timeoutErr) Timeout() bool   { return true }
+func (timeoutErr) Temporary() bool { return true }
 
 func newFragReader(data []byte, kind, k int, seed int64) *fragReader {
 	f := &fragReader{data: data, kind: kind, k: k}
@@ -63,6 +75,14 @@ func (f *fragReader) Read(p []byte) (int, error) {
 		}
 		if f.eofReads > len(f.data)+64 {
 			panic(loopSentinel{}) // the parser keeps asking after EOF: break its loop
+		}
+		switch f.endMode {
+		case 1:
+			return 0, errConnReset
+		case 2:
+			return 0, timeoutErr{}
+		case 3:
+			panic(abandonSentinel{}) // the read attempt is abandoned midway
 		}
 		return 0, io.EOF
 	}
@@ -308,12 +328,16 @@ func continuation(rnd *rand.Rand, j int) (string, []byte) {
 		return "lf", []byte("\n")
 	case 14:
 		return "crlfcr", []byte("\r\n\r")
-	default:
+	case 15:
 		return "chunked-body", []byte("5\r\nhello\r\n0\r\n\r\n")
+	case 16:
+		return "long-no-lf", bytes.Repeat([]byte("c"), 300+rnd.Intn(5000))
+	default:
+		return "long-then-lflf", append(bytes.Repeat([]byte("c"), 300+rnd.Intn(3000)), "\n\nX: y\r\n\r\n"...)
 	}
 }
 
-const nContinuations = 16
+const nContinuations = 18
 
 // ---------------------------------------------------------------------------
 // executing the real parsers
@@ -357,8 +381,74 @@ type readPlan struct {
 
 var ops = []string{"RequestHeader.Read", "ResponseHeader.Read", "Request.Read", "Response.Read", "Request.ReadLimitBody", "Response.ReadLimitBody"}
 
-// parse runs one real parser over input and reports what it did.
-func parse(op string, input []byte, pl readPlan) (o outcome) {
+// subject is the object a parse is executed on: fresh for the plain monitors,
+// with a history for the re-use monitor (reuse_test.go).
+type subject struct {
+	reqH  *fasthttp.RequestHeader
+	respH *fasthttp.ResponseHeader
+	req   *fasthttp.Request
+	resp  *fasthttp.Response
+}
+
+func newSubject() *subject {
+	return &subject{reqH: &fasthttp.RequestHeader{}, respH: &fasthttp.ResponseHeader{}, req: &fasthttp.Request{}, resp: &fasthttp.Response{}}
+}
+
+func (s *subject) reset(op string) {
+	switch {
+	case op == "RequestHeader.Read":
+		s.reqH.Reset()
+	case op == "ResponseHeader.Read":
+		s.respH.Reset()
+	case strings.HasPrefix(op, "Request."):
+		s.req.Reset()
+	default:
+		s.resp.Reset()
+	}
+}
+
+// read executes op on the subject and returns the error and, on success, the field snapshot.
+func (s *subject) read(op string, br *bufio.Reader) (fields string, err error) {
+	switch op {
+	case "RequestHeader.Read":
+		if err = s.reqH.Read(br); err == nil {
+			fields = snapReqHeader(s.reqH)
+		}
+	case "ResponseHeader.Read":
+		if err = s.respH.Read(br); err == nil {
+			fields = snapRespHeader(s.respH)
+		}
+	case "Request.Read", "Request.ReadLimitBody":
+		if op == "Request.Read" {
+			err = s.req.Read(br)
+		} else {
+			err = s.req.ReadLimitBody(br, 1024)
+		}
+		if err == nil {
+			fields = snapReqHeader(&s.req.Header) + fmt.Sprintf("|body=%q", s.req.Body())
+		}
+	case "Response.Read", "Response.ReadLimitBody":
+		if op == "Response.Read" {
+			err = s.resp.Read(br)
+		} else {
+			err = s.resp.ReadLimitBody(br, 1024)
+		}
+		if err == nil {
+			fields = snapRespHeader(&s.resp.Header) + fmt.Sprintf("|body=%q", s.resp.Body())
+		}
+	}
+	return fields, err
+}
+
+func bufioFor(fr *fragReader, size int) *bufio.Reader { return bufio.NewReaderSize(fr, size) }
+
+// parse runs one real parser over input on a fresh object and reports what it did.
+func parse(op string, input []byte, pl readPlan) outcome {
+	return parseOn(newSubject(), op, input, pl)
+}
+
+// parseOn runs one real parser over input on the given object.
+func parseOn(sub *subject, op string, input []byte, pl readPlan) (o outcome) {
 	fr := newFragReader(input, pl.Kind, pl.K, pl.Seed)
 	fr.onStarve = func() { o.Starved = true }
 	br := bufio.NewReaderSize(fr, pl.Buf)
@@ -371,39 +461,8 @@ func parse(op string, input []byte, pl readPlan) (o outcome) {
 			o.Panic = fmt.Sprint(p)
 		}
 	}()
-	var err error
-	switch op {
-	case "RequestHeader.Read":
-		var h fasthttp.RequestHeader
-		if err = h.Read(br); err == nil {
-			o.Fields = snapReqHeader(&h)
-		}
-	case "ResponseHeader.Read":
-		var h fasthttp.ResponseHeader
-		if err = h.Read(br); err == nil {
-			o.Fields = snapRespHeader(&h)
-		}
-	case "Request.Read", "Request.ReadLimitBody":
-		var req fasthttp.Request
-		if op == "Request.Read" {
-			err = req.Read(br)
-		} else {
-			err = req.ReadLimitBody(br, 1024)
-		}
-		if err == nil {
-			o.Fields = snapReqHeader(&req.Header) + fmt.Sprintf("|body=%q", req.Body())
-		}
-	case "Response.Read", "Response.ReadLimitBody":
-		var resp fasthttp.Response
-		if op == "Response.Read" {
-			err = resp.Read(br)
-		} else {
-			err = resp.ReadLimitBody(br, 1024)
-		}
-		if err == nil {
-			o.Fields = snapRespHeader(&resp.Header) + fmt.Sprintf("|body=%q", resp.Body())
-		}
-	}
+	fields, err := sub.read(op, br)
+	o.Fields = fields
 	o.Accept = err == nil
 	if err != nil {
 		o.Err = err.Error()
@@ -423,11 +482,14 @@ type nopLogger struct{}
 func (nopLogger) Printf(string, ...any) {}
 
 type scriptConn struct {
-	fr       *fragReader
-	wrote    int
-	starved  bool
-	atStarve struct{ handlerCalls, wrote int }
-	calls    *int
+	fr         *fragReader
+	failWrites bool         // every Write fails (peer is gone)
+	keep       bool         // keep what was written
+	out        bytes.Buffer // (only with keep)
+	wrote      int
+	starved    bool
+	atStarve   struct{ handlerCalls, wrote int }
+	calls      *int
 }
 
 type fakeAddr struct{}
@@ -435,8 +497,17 @@ type fakeAddr struct{}
 func (fakeAddr) Network() string { return "tcp" }
 func (fakeAddr) String() string  { return "192.0.2.1:1234" }
 
-func (c *scriptConn) Read(p []byte) (int, error)       { return c.fr.Read(p) }
-func (c *scriptConn) Write(p []byte) (int, error)      { c.wrote += len(p); return len(p), nil }
+func (c *scriptConn) Read(p []byte) (int, error) { return c.fr.Read(p) }
+func (c *scriptConn) Write(p []byte) (int, error) {
+	if c.failWrites {
+		return 0, errConnReset
+	}
+	if c.keep {
+		c.out.Write(p)
+	}
+	c.wrote += len(p)
+	return len(p), nil
+}
 func (c *scriptConn) Close() error                     { return nil }
 func (c *scriptConn) LocalAddr() net.Addr              { return fakeAddr{} }
 func (c *scriptConn) RemoteAddr() net.Addr             { return fakeAddr{} }
@@ -523,6 +594,7 @@ func TestC09(t *testing.T) {
 	r := mon.Start(t, "C09")
 	defer r.Finish()
 	r.Rule("case = one head H built line by line (request or response; first line valid or broken; 0-7 header lines incl. folded, odd and framing fields; line ends all-CRLF / all-LF / mixed; blank line CRLF or LF; optional leading empty lines) × one reader (RequestHeader.Read, ResponseHeader.Read, Request.Read/ReadLimitBody, Response.Read/ReadLimitBody, Server.ServeConn) × bufio size ≥ |H| × read-chunk plan; H is parsed alone (starvation monitor) and followed by 4 of 15 continuations (differential monitor); distinct = (reader, kind, line-end mode, blank-line form, field-count bucket, features, verdict); non-trivial = head has header lines or a terminator other than CRLFCRLF")
+	r.Assume("object re-use: an earlier read attempt on the same object may have ended in EOF, a reader error, a timeout, or been abandoned midway (the reader panics out of Read, standing for an attempt that is never resumed); Read must prepare the object itself, Reset() is applied in half of the cases; RequestCtx pool re-use is observed by pointer identity (pool_ctx_reuse_observed)")
 	r.Assume("a head is complete when, by fasthttp's own line rules (readRawHeaders / nextLine: a line ends at LF, an optional preceding CR is dropped), an empty line follows the first line; the generator builds such heads line by line, no line content contains LF or ends in CR")
 	r.Assume("for the full-message readers only heads that announce no body are used (requests without Content-Length/Transfer-Encoding, responses with Content-Length: 0 or 204/304/101), so nothing after the head legitimately matters; bufio size is never smaller than the head (too-small buffers are C07)")
 	r.Assume("accept/reject is compared, not error texts (fasthttp quotes buffered bytes in its messages)")
@@ -532,26 +604,33 @@ func TestC09(t *testing.T) {
 	blocks := (n + block - 1) / block
 	mon.Parallel(blocks, 0, func(bi int) {
 		rigs := []*serverRig{newServerRig(4096), newServerRig(1024)}
+		pool := newLogRig() // one Server per block: its RequestCtx pool is re-used from case to case, sequentially
 		for k := 0; k < block; k++ {
 			i := bi*block + k
 			if i >= n || !r.Want(i) {
 				continue
 			}
-			runCase(r, i, rigs)
+			runCase(r, i, rigs, pool)
 		}
 	})
 	r.Require("continuation_pairs_compared", n*3)
 	r.Require("starvation_probes", n)
 	r.Require("complete_heads_accepted", n/20)
 	r.Require("complete_heads_rejected", n/20)
+	r.Require("reused_object_parses", n*2)
+	r.Require("pool_judged_conns", n/10)
+	r.Require("pool_abandoned_after_first_request", n/10)
+	r.Require("pool_ctx_reuse_observed", n/40)
 }
 
-func runCase(r *mon.Run, i int, rigs []*serverRig) {
+func runCase(r *mon.Run, i int, rigs []*serverRig, pool *logRig) {
 	rnd := r.Rand("head", i)
-	mode := i % 7 // 0..5: ops[mode]; 6: Server.ServeConn
+	mode := i % 8 // 0..5: ops[mode]; 6: Server.ServeConn (starvation); 7: Server.ServeConn (pooled RequestCtx after an abandoned attempt)
 	var op, kind string
 	noBody := false
-	if mode == 6 {
+	if mode == 7 {
+		op, kind, noBody = "Server.ServeConn(pooled ctx)", "req", true
+	} else if mode == 6 {
 		op, kind, noBody = "Server.ServeConn", "req", true
 	} else {
 		op = ops[mode]
@@ -567,6 +646,12 @@ func runCase(r *mon.Run, i int, rigs []*serverRig) {
 	nontrivial := len(h.lines) > 1 || shape
 	base := map[string]any{"op": op, "head": q(H), "line_ends": h.endMod, "blank_form": h.blankForm(), "features": h.feats}
 
+	if mode == 7 {
+		r.Event("starvation_probes", 1) // (kept for the Require bookkeeping: every case probes a complete head)
+		cls := poolCase(r, i, rnd, pool, h, H, base)
+		r.Case(fmt.Sprintf("%s/%s/%s/nf=%d/%v/%s", op, h.endMod, h.blankForm(), min(len(h.lines)-1, 4), h.feats, cls), true)
+		return
+	}
 	if mode == 6 {
 		pl := genPlan(rnd, len(H))
 		rig := rigs[0]
@@ -636,6 +721,7 @@ func runCase(r *mon.Run, i int, rigs []*serverRig) {
 	outs := []outcome{o0}
 	names := []string{"empty"}
 	conts := [][]byte{nil}
+	pls := []readPlan{pl0}
 	for _, j := range perm[:4] {
 		name, S := continuation(rnd, j+1)
 		in := append(append([]byte{}, H...), S...)
@@ -650,7 +736,7 @@ func runCase(r *mon.Run, i int, rigs []*serverRig) {
 			r.Violation(i, "hang:"+op, fmt.Sprintf("%s keeps reading after EOF on %s", op, q(in)), merge(base, map[string]any{"plan": pl, "continuation": q(S)}))
 			continue
 		}
-		outs, names, conts = append(outs, o), append(names, name), append(conts, S)
+		outs, names, conts, pls = append(outs, o), append(names, name), append(conts, S), append(pls, pl)
 	}
 	// compare every outcome with the first one of the other verdict / other fields
 	reported := map[string]bool{}
@@ -678,6 +764,10 @@ func runCase(r *mon.Run, i int, rigs []*serverRig) {
 				r.Violation(i, key, what, merge(base, map[string]any{"continuation_a": q(conts[a]), "continuation_b": q(conts[b]), "outcome_a": oa, "outcome_b": ob}))
 			}
 		}
+	}
+	// 3. the same parses on one object with a history (abandoned attempts, optional Reset)
+	if o0.Panic == "" && !o0.Loop {
+		reuseMonitor(r, i, rnd, op, kind, H, base, outs, names, conts, pls)
 	}
 	verdict := "reject"
 	if o0.Accept {
